@@ -83,6 +83,70 @@ type world struct {
 	strict  bool // the real callback refuses a state record with an empty session id (probed once)
 }
 
+// expect ends the run when something the driver needs FROM THE CODE UNDER TEST does not happen (the
+// proxy does not boot from its configuration, an unauthenticated request does not start a flow, an
+// ordinary login is refused): that is a broken correspondence, which check.py reports as VIOLATION
+// (no-failing-input-found at worst).  common.Must (exit 3) is kept for the harness's own
+// infrastructure: sockets, files, the fake peers.
+func expect(err error) {
+	if err != nil {
+		fmt.Fprintln(os.Stderr, "expectation about the code under test failed:", err)
+		os.Exit(4)
+	}
+}
+
+// shape is how a request is dressed: the method and the headers a browser (or an attacker's page
+// driving a browser) can choose.  OAuthStart must record the request target whatever the shape.
+type shape struct {
+	Method string
+	Hdr    map[string]string
+}
+
+func (sh shape) describe() string {
+	var keys []string
+	for k := range sh.Hdr {
+		keys = append(keys, k)
+	}
+	sort.Strings(keys)
+	d := sh.Method
+	for _, k := range keys {
+		d += fmt.Sprintf(" %s: %s;", k, sh.Hdr[k])
+	}
+	return d
+}
+
+var plainGET = shape{Method: "GET"}
+
+func genShape(r *c.Rng, host string) shape {
+	sh := shape{Method: "GET", Hdr: map[string]string{}}
+	if r.Chance(0.45) {
+		sh.Method = r.Pick([]string{"POST", "POST", "PUT", "DELETE", "PATCH", "HEAD", "OPTIONS"})
+	}
+	if r.Chance(0.5) {
+		sh.Hdr["Referer"] = r.Pick([]string{
+			"http://" + host + "/page?x=1", "http://" + host, "https://" + host + "/", "http://" + host + ".attacker.example/landing",
+			"http://" + host + "@attacker.example/x", "http://" + host + ":1@attacker.example/", "http://attacker.example/?http://" + host + "/",
+			"//attacker.example/", "/relative", "http://" + strings.ToUpper(host) + "/p", "javascript:alert(1)", "http://" + host + "\\@attacker.example/",
+		})
+	}
+	if r.Chance(0.15) {
+		sh.Hdr["Origin"] = r.Pick([]string{"http://" + host, "http://attacker.example", "null"})
+	}
+	if r.Chance(0.12) {
+		sh.Hdr["X-Forwarded-Host"] = r.Pick([]string{"attacker.example", host})
+	}
+	if r.Chance(0.08) {
+		sh.Hdr["X-Forwarded-Proto"] = r.Pick([]string{"https", "http", "javascript"})
+	}
+	if r.Chance(0.06) {
+		sh.Hdr["X-Original-Url"] = "//attacker.example/"
+	}
+	if r.Chance(0.06) {
+		sh.Hdr["Forwarded"] = "host=attacker.example;proto=https"
+	}
+	return sh
+}
+
 // ---------------------------------------------------------------- symbolic descriptions
 
 type flowRec struct {
@@ -197,11 +261,17 @@ type started struct {
 	rec               flowRec
 	state, cookie     string
 	stateSym, cookSym *sym
+	shape             shape
+}
+
+// coq renders what one real OAuthStart run produced (Callback.started)
+func (st *started) coq() string {
+	return fmt.Sprintf("{| st_flow := %s; st_cookie := %s; st_state := %s |}", st.rec.coq(), st.cookSym.coq(), st.stateSym.coq())
 }
 
 // start runs a real OAuthStart (unauthenticated origin-form request) and names what it produced.
-func (w *world) start(x *ctx, host, target string) (*started, error) {
-	req, err := rawRequest("GET", target, host, nil, "")
+func (w *world) start(x *ctx, host, target string, sh shape) (*started, error) {
+	req, err := rawRequest(sh.Method, target, host, sh.Hdr, "")
 	if err != nil {
 		return nil, err
 	}
@@ -213,7 +283,7 @@ func (w *world) start(x *ctx, host, target string) (*started, error) {
 	if err != nil {
 		return nil, err
 	}
-	st := &started{state: loc.Query().Get("state")}
+	st := &started{state: loc.Query().Get("state"), shape: sh}
 	for _, ck := range rec.Result().Cookies() {
 		if ck.Name == w.csrfKey {
 			st.cookie = ck.Value
@@ -251,7 +321,13 @@ func goRedirect(u string) string {
 }
 
 // respell returns another string that Go's non-strict base64url decoder maps to the same bytes.
-// kind 0: set unused trailing bits of the last character; 1: append LF; 2: insert CR.
+// kind 0: set unused trailing bits of the last character; 1: append LF; 2: insert CR.  Further
+// candidate respellings that a tolerant decoder might accept: 3: one '=' of padding; 4: "==";
+// 5: a trailing space; 6: a leading '='.  Kinds 0, 3, 4 and 6 are also legal cookie values.
+const respellKinds = 7
+
+func cookieSafe(kind int) bool { return kind == 0 || kind == 3 || kind == 4 || kind == 6 }
+
 func respell(s string, kind int) (string, bool) {
 	const alpha = "ABCDEFGHIJKLMNOPQRSTUVWXYZabcdefghijklmnopqrstuvwxyz0123456789-_"
 	switch kind {
@@ -266,8 +342,16 @@ func respell(s string, kind int) (string, bool) {
 		return s[:len(s)-1] + string(alpha[i^1]), true
 	case 1:
 		return s + "\n", true
-	default:
+	case 2:
 		return s[:len(s)/2] + "\r" + s[len(s)/2:], true
+	case 3:
+		return s + "=", true
+	case 4:
+		return s + "==", true
+	case 5:
+		return s + " ", true
+	default:
+		return "=" + s, true
 	}
 }
 
@@ -322,11 +406,16 @@ func (w *world) flowCase(r *c.Rng, auth *codeAuth, force string) (c.Case, error)
 	if r.Chance(0.3) {
 		tB = tA
 	}
-	A, err := w.start(x, host, tA)
+	shA, shB := genShape(r, host), genShape(r, host)
+	if strings.HasSuffix(force, "@same") { // two starts for the same page, back to back
+		force = strings.TrimSuffix(force, "@same")
+		tB, shA, shB = tA, plainGET, plainGET
+	}
+	A, err := w.start(x, host, tA, shA)
 	if err != nil {
 		return c.Case{}, err
 	}
-	B, err := w.start(x, host, tB)
+	B, err := w.start(x, host, tB, shB)
 	if err != nil {
 		return c.Case{}, err
 	}
@@ -341,7 +430,7 @@ func (w *world) flowCase(r *c.Rng, auth *codeAuth, force string) (c.Case, error)
 	}
 	issued := []*sym{A.cookSym, A.stateSym, B.cookSym, B.stateSym}
 	issued = append(issued, sessSyms...)
-	startedFlows := []flowRec{A.rec, B.rec}
+	starts := []*started{A, B}
 
 	enc := func(s *sym) wire { return wire{Sealed: s} }
 	junk := func(s string) wire { return wire{Junk: x.junkID(s)} }
@@ -365,7 +454,7 @@ func (w *world) flowCase(r *c.Rng, auth *codeAuth, force string) (c.Case, error)
 	// The menu has the same entries for every flow (the PRNG stream must not depend on the random
 	// length of the sealed values): where the trailing-bits respelling does not exist (length = 0
 	// mod 4) the LF respelling stands in for the state, and the plain swap for the cookie.
-	for kind := 0; kind < 3; kind++ {
+	for kind := 0; kind < respellKinds; kind++ {
 		k := kind
 		if _, ok := respell(A.cookie, k); !ok {
 			k = 1
@@ -381,10 +470,15 @@ func (w *world) flowCase(r *c.Rng, auth *codeAuth, force string) (c.Case, error)
 		v, _ = respell(A.state, k)
 		add("respelled-state", v, wire{Variant: k + 1, Sealed: A.stateSym}, strp(A.cookie), pw(enc(A.cookSym)), k+1)
 	}
-	if v, ok := respell(A.state, 0); ok { // cookie = the state respelled (cookie values cannot carry CR/LF)
-		add("respelled-state-as-cookie", A.state, enc(A.stateSym), strp(v), pw(wire{Variant: 1, Sealed: A.stateSym}), 1)
-	} else {
-		add("swapped", A.cookie, enc(A.cookSym), strp(A.state), pw(enc(A.stateSym)), 0)
+	for kind := 0; kind < respellKinds; kind++ { // cookie = the state respelled (cookie values cannot carry CR/LF/space)
+		if !cookieSafe(kind) {
+			continue
+		}
+		if v, ok := respell(A.state, kind); ok {
+			add("respelled-state-as-cookie", A.state, enc(A.stateSym), strp(v), pw(wire{Variant: kind + 1, Sealed: A.stateSym}), kind+1)
+		} else {
+			add("swapped", A.cookie, enc(A.cookSym), strp(A.state), pw(enc(A.stateSym)), 0)
+		}
 	}
 	if len(sessStr) >= 2 {
 		add("sessions", sessStr[0], enc(sessSyms[0]), strp(sessStr[1]), pw(enc(sessSyms[1])), 0)
@@ -444,6 +538,8 @@ func (w *world) flowCase(r *c.Rng, auth *codeAuth, force string) (c.Case, error)
 		if ch.tag == "" {
 			return c.Case{}, fmt.Errorf("no menu entry %q (this flow's length admits no such respelling)", force)
 		}
+	} else if r.Chance(0.3) {
+		ch = menu[r.Intn(4)] // own, own, own-B, swapped: keep the honest flows a third of the stream
 	} else {
 		ch = menu[r.Intn(len(menu))]
 	}
@@ -583,8 +679,8 @@ func (w *world) flowCase(r *c.Rng, auth *codeAuth, force string) (c.Case, error)
 	for _, s := range issued {
 		iss = append(iss, s.coq())
 	}
-	for _, f := range startedFlows {
-		stf = append(stf, f.coq())
+	for _, e := range starts {
+		stf = append(stf, e.coq())
 	}
 	cookieCoq := "None"
 	if ch.cw != nil {
@@ -596,7 +692,7 @@ func (w *world) flowCase(r *c.Rng, auth *codeAuth, force string) (c.Case, error)
 		rec.Code, c.Bool(redeemCalled), sessObs, c.Bool(csrfEff == "cleared"), c.Str(location))
 	coq := fmt.Sprintf("CFlow %s %s %s %s %s %s %s", c.Bool(canon), c.Bool(w.strict), c.List(stf), c.List(iss), reqCoq, c.List(rt), obsCoq)
 	js := map[string]interface{}{
-		"kind": "flow", "presented": ch.tag, "host": cbHost, "started_under": host, "start_targets": []string{tA, tB}, "recorded": []string{A.rec.Redirect, B.rec.Redirect},
+		"kind": "flow", "presented": ch.tag, "host": cbHost, "started_under": host, "start_targets": []string{tA, tB}, "start_shapes": []string{A.shape.describe(), B.shape.describe()}, "recorded": []string{A.rec.Redirect, B.rec.Redirect},
 		"code": code, "error": errParam, "form_ok": formOK, "redeem": redeemSym, "valid": valid, "post": post, "canonical_decoding": canon, "empty_record_refused": w.strict,
 		"obs": map[string]interface{}{"status": rec.Code, "redeem_called": redeemCalled, "session": sessJSON, "csrf_cleared": csrfEff == "cleared", "location": location},
 	}
@@ -629,7 +725,7 @@ func (w *world) concurrentGroup(r *c.Rng, auth *codeAuth, n int, sameHost bool) 
 			m.host = r.Pick([]string{hostApp, hostSvcA, hostRwDt, hostRwUp})
 		}
 		m.target = r.Pick(startTargets)
-		fl, err := w.start(m.x, m.host, m.target)
+		fl, err := w.start(m.x, m.host, m.target, genShape(r, m.host))
 		if err != nil {
 			return nil, err
 		}
@@ -685,7 +781,7 @@ func (w *world) concurrentGroup(r *c.Rng, auth *codeAuth, n int, sameHost bool) 
 		if v, ok := respell(m.fl.cookie, 1); ok && w.opens(v) {
 			canon = false
 		}
-		coq := fmt.Sprintf("CFlow %s %s %s %s %s %s %s", c.Bool(canon), c.Bool(w.strict), c.List([]string{f.coq()}),
+		coq := fmt.Sprintf("CFlow %s %s %s %s %s %s %s", c.Bool(canon), c.Bool(w.strict), c.List([]string{m.fl.coq()}),
 			c.List([]string{m.fl.cookSym.coq(), m.fl.stateSym.coq()}), reqCoq, c.List(rt), obsCoq)
 		var seen []string // which members' codes reached the authenticator, in order, and how it answered
 		for _, cl := range log {
@@ -699,7 +795,7 @@ func (w *world) concurrentGroup(r *c.Rng, auth *codeAuth, n int, sameHost bool) 
 		}
 		sort.Strings(seen) // arrival order is a race, not an observable
 		js := map[string]interface{}{
-			"kind": "flow", "presented": "own-concurrent", "group_size": n, "member": i, "same_host": sameHost, "host": m.host, "start_target": m.target,
+			"kind": "flow", "presented": "own-concurrent", "group_size": n, "member": i, "same_host": sameHost, "host": m.host, "start_target": m.target, "start_shape": m.fl.shape.describe(),
 			"recorded": f.Redirect, "redeem": m.redeemSym, "authenticator_saw": seen, "canonical_decoding": canon, "empty_record_refused": w.strict,
 			"obs": map[string]interface{}{"status": ob.status, "redeem_called_with_own_code": redeemCalled, "session": ob.sessJSON, "csrf_cleared": ob.csrfCleared, "location": ob.location},
 		}
@@ -746,7 +842,7 @@ var startTargets = []string{
 
 // ---------------------------------------------------------------- stream (ii): request targets
 
-func (w *world) targetCase(hdrHost, target string) c.Case {
+func (w *world) targetCase(hdrHost, target string, sh shape) c.Case {
 	status, location := 0, ""
 	var startedHost, recorded *string
 	// harness-side trouble (loopback dial or read timing out on a loaded machine) is retried; what the
@@ -761,8 +857,15 @@ func (w *world) targetCase(hdrHost, target string) c.Case {
 			continue
 		}
 		conn.SetDeadline(time.Now().Add(60 * time.Second))
-		fmt.Fprintf(conn, "GET %s HTTP/1.1\r\nHost: %s\r\nConnection: close\r\n\r\n", target, hdrHost)
-		resp, err := http.ReadResponse(bufio.NewReader(conn), nil)
+		fmt.Fprintf(conn, "%s %s HTTP/1.1\r\nHost: %s\r\nConnection: close\r\n", sh.Method, target, hdrHost)
+		for k, v := range sh.Hdr {
+			fmt.Fprintf(conn, "%s: %s\r\n", k, v)
+		}
+		if sh.Method != "GET" && sh.Method != "HEAD" && sh.Method != "OPTIONS" {
+			fmt.Fprintf(conn, "Content-Length: 0\r\n")
+		}
+		fmt.Fprintf(conn, "\r\n")
+		resp, err := http.ReadResponse(bufio.NewReader(conn), &http.Request{Method: sh.Method})
 		if err == nil {
 			status = resp.StatusCode
 			location = resp.Header.Get("Location")
@@ -787,7 +890,7 @@ func (w *world) targetCase(hdrHost, target string) c.Case {
 	}
 	coq := fmt.Sprintf("CTarget %s %s %s {| to_status := %d; to_location := %s; to_started := %s |}",
 		c.Strs(hosts), c.Str(hdrHost), c.Str(target), status, c.Str(location), started)
-	js := map[string]interface{}{"kind": "target", "host_header": hdrHost, "target": fmt.Sprintf("%q", target), "status": status, "location": location}
+	js := map[string]interface{}{"kind": "target", "host_header": hdrHost, "shape": sh.describe(), "target": fmt.Sprintf("%q", target), "status": status, "location": location}
 	if recorded != nil {
 		js["started_host"], js["recorded"] = *startedHost, fmt.Sprintf("%q", *recorded)
 	}
@@ -902,7 +1005,7 @@ func main() {
 		"- service: rw\n  default:\n    from: '" + rwRegex + "'\n    to: " + backend.HostPort() + "\n    type: rewrite\n    options:\n      allowed_email_domains: [\"ex.io\"]\n"
 	// BuildProxy only needs the authenticator's address
 	pw, err := c.BuildProxy(c.ProxyOpts{YAML: yaml, Valid: time.Hour, Dir: dir}, &c.FakeAuth{Srv: auth.Srv})
-	c.Must(err)
+	expect(err) // the proxy boots from its configuration (SetUpstreamConfigs + proxy.New)
 	other, err := aead.NewMiscreantCipher(c.OtherSecret)
 	c.Must(err)
 	w := &world{ProxyWorld: pw, other: other, csrfKey: pw.CookieName + "_csrf"}
@@ -916,14 +1019,14 @@ func main() {
 	auth.script(map[string]c.Answer{"abc": okRedeem("u@ex.io")})
 	for i := 0; i < 2; i++ {
 		x := newCtx()
-		st, err := w.start(x, hostApp, "/")
-		c.Must(err)
+		st, err := w.start(x, hostApp, "/", plainGET)
+		expect(err)
 		req, err := rawRequest("GET", "/oauth2/callback?code=abc&state="+url.QueryEscape(st.state), hostApp, map[string]string{"Cookie": w.csrfKey + "=" + st.cookie}, "")
 		c.Must(err)
 		rec := w.Do(req)
 		eff, val := c.CookieEffect(rec, w.CookieName)
 		if eff != "set" {
-			c.Must(fmt.Errorf("set-up login failed: status %d", rec.Code))
+			expect(fmt.Errorf("set-up login failed: status %d", rec.Code))
 		}
 		w.sess = append(w.sess, val)
 	}
@@ -946,7 +1049,8 @@ func main() {
 	for _, tag := range append([]string{"own", "swapped", "cross", "equal-state", "equal-cookie", "no-cookie", "no-state",
 		"respelled-cookie-as-state", "respelled-state", "sessions", "session-equal", "session-state", "session-cookie",
 		"other-key-state", "other-key-cookie", "forged-redirect", "bitflip-state", "bitflip-cookie", "truncated", "junk-cookie",
-		"own@port", "own@cross-port", "own@ipv6", "own@upper", "own@dot", "swapped@port", "cross@port"}, corpusFlows...) {
+		"own@port", "own@cross-port", "own@ipv6", "own@upper", "own@dot", "swapped@port", "cross@port",
+		"cross@same", "cross-rev@same", "cross-cookies@same", "own@same", "respelled-state-as-cookie"}, corpusFlows...) {
 		cs, err := w.flowCase(r, auth, tag)
 		if err != nil {
 			// a respelling by trailing bits exists only for some lengths; retry a few flows
@@ -957,33 +1061,43 @@ func main() {
 				}
 			}
 			if !ok {
-				c.Must(err)
+				expect(err)
 			}
 		}
 		cases = append(cases, cs)
 	}
 	for _, t := range boundaryTargets {
-		cases = append(cases, w.targetCase(hostApp, t))
+		cases = append(cases, w.targetCase(hostApp, t, plainGET))
 	}
 	for _, t := range corpusTargets {
-		cases = append(cases, w.targetCase(hostApp, t))
+		cases = append(cases, w.targetCase(hostApp, t, plainGET))
 	}
 	for _, t := range []string{"/", "/x", "//evil.com", "http://" + hostApp + "/x", "/ping"} {
-		cases = append(cases, w.targetCase(hostOther, t))
-		cases = append(cases, w.targetCase("unknown.test", t))
+		cases = append(cases, w.targetCase(hostOther, t, plainGET))
+		cases = append(cases, w.targetCase("unknown.test", t, plainGET))
+	}
+	// the same few targets under every method, with Referer / forwarding headers an attacker's page can cause
+	for _, meth := range []string{"POST", "PUT", "DELETE", "PATCH", "HEAD", "OPTIONS"} {
+		for _, ref := range []string{"", "http://" + hostApp + "/page", "http://" + hostApp + ".attacker.example/landing", "http://" + hostApp + "@attacker.example/x"} {
+			sh := shape{Method: meth, Hdr: map[string]string{}}
+			if ref != "" {
+				sh.Hdr["Referer"] = ref
+			}
+			cases = append(cases, w.targetCase(hostApp, "/account/email?x=1", sh))
+		}
 	}
 	// callbacks in flight at once: pairs and triples, on one host and on different hosts
 	nGroups := 6 + a.N/100
 	for i := 0; i < nGroups; i++ {
 		n := 2 + i%2
 		cs, err := w.concurrentGroup(r, auth, n, i%4 != 3)
-		c.Must(err)
+		expect(err)
 		cases = append(cases, cs...)
 	}
 	nFlow := a.N * 2 / 5
 	for i := 0; i < nFlow; i++ {
 		cs, err := w.flowCase(r, auth, "")
-		c.Must(err)
+		expect(err)
 		cases = append(cases, cs)
 	}
 	for i := 0; i < a.N-nFlow; i++ {
@@ -994,7 +1108,7 @@ func main() {
 		case 1:
 			hh = "unknown.test"
 		}
-		cases = append(cases, w.targetCase(hh, genTarget(r)))
+		cases = append(cases, w.targetCase(hh, genTarget(r), genShape(r, hh)))
 	}
 	c.Must(c.WriteShards(a.Out, "Corr_C06", cases, a.Shard))
 	fmt.Printf("cases=%d\n", len(cases))
